@@ -777,18 +777,25 @@ fn gen_program(rng: &mut Rng, width: f32, thr: f32, variable: bool, shape_only: 
 // =============================================================================================
 
 /// recording geometry builder: every accessor of every vertex (incl. `interpolated_attributes()`), every
-/// triangle; refuses the `k`-th `add_stroke_vertex` (1-based; 0 = never)
+/// triangle; refuses the `add_stroke_vertex` calls number `k .. k + times` (1-based; `k = 0`: never;
+/// `times = 0`: from the k-th on), alternately with `TooManyVertices` / `InvalidVertex` as `too_many` says;
+/// its vertex constructor panics at the `panic_at`-th accepted vertex (1-based; 0 = never), after having
+/// read every accessor (so the attribute buffer has been written)
 struct ReuseRec {
     verts: Vec<hk::Vtx>,
     tris: Vec<(u32, u32, u32)>,
     k: usize,
+    times: usize,
+    too_many: bool,
+    panic_at: usize,
     seen: usize,
+    refusals: usize,
     tris_at_refusal: Option<usize>,
 }
 
 impl ReuseRec {
-    fn new(k: usize) -> ReuseRec {
-        ReuseRec { verts: Vec::new(), tris: Vec::new(), k, seen: 0, tris_at_refusal: None }
+    fn new(k: usize, times: usize, too_many: bool, panic_at: usize) -> ReuseRec {
+        ReuseRec { verts: Vec::new(), tris: Vec::new(), k, times, too_many, panic_at, seen: 0, refusals: 0, tris_at_refusal: None }
     }
 }
 
@@ -801,11 +808,18 @@ impl GeometryBuilder for ReuseRec {
 impl StrokeGeometryBuilder for ReuseRec {
     fn add_stroke_vertex(&mut self, mut v: StrokeVertex) -> Result<VertexId, GeometryBuilderError> {
         self.seen += 1;
-        if self.seen == self.k {
-            self.tris_at_refusal = Some(self.tris.len());
-            return Err(GeometryBuilderError::TooManyVertices);
+        if self.k > 0 && self.seen >= self.k && (self.times == 0 || self.seen < self.k + self.times) {
+            if self.tris_at_refusal.is_none() {
+                self.tris_at_refusal = Some(self.tris.len());
+            }
+            self.refusals += 1;
+            return Err(if self.too_many { GeometryBuilderError::TooManyVertices } else { GeometryBuilderError::InvalidVertex });
         }
-        self.verts.push(hk::read_vertex(&mut v));
+        let vtx = hk::read_vertex(&mut v);
+        if self.verts.len() + 1 == self.panic_at {
+            panic!("C08-injected-ctor-panic");
+        }
+        self.verts.push(vtx);
         Ok(VertexId(self.verts.len() as u32 - 1))
     }
 }
@@ -827,8 +841,13 @@ struct SCall {
     options: StrokeOptions,
     n_attr: usize,
     extra: [f32; 2],
-    /// refuse the k-th vertex (1-based; 0 = never)
+    /// refuse the k-th vertex (1-based; 0 = never) ...
     refuse: usize,
+    /// ... `times` times (0 = from then on), with this error
+    times: usize,
+    too_many: bool,
+    /// the vertex constructor panics at this accepted vertex (1-based; 0 = never)
+    panic_at: usize,
 }
 
 /// what one call emitted
@@ -836,6 +855,8 @@ struct CallResult {
     toks: String,
     panicked: bool,
     tris_at_refusal: Option<usize>,
+    /// how many `add_stroke_vertex` calls were refused
+    refusals: usize,
 }
 
 impl SCall {
@@ -857,6 +878,9 @@ impl SCall {
         let thr = (tol * tol * 0.5).min(width * width * 0.05).max(1e-8f32);
         let extra = [rng.uniform(-5.0, 5.0) as f32, rng.uniform(-5.0, 5.0) as f32];
         let refuse = if rng.chance(1, 4) { rng.range(1, 14) as usize } else { 0 };
+        let times = *rng.pick(&[1usize, 1, 2, 0]);
+        let too_many = rng.chance(1, 2);
+        let panic_at = if rng.chance(1, 8) { rng.range(1, 14) as usize } else { 0 };
         if rng.chance(1, 2) {
             // plain path
             let entry = match rng.below(10) {
@@ -906,7 +930,7 @@ impl SCall {
                     simple: false,
                 }
             };
-            SCall { body: Body::Plain { inp, entry }, options, n_attr, extra, refuse }
+            SCall { body: Body::Plain { inp, entry }, options, n_attr, extra, refuse, times, too_many, panic_at }
         } else {
             let entry = match rng.below(16) {
                 0..=4 => 0,
@@ -930,7 +954,7 @@ impl SCall {
             };
             let cmds = gen_program(rng, width, thr, variable && entry == 1, shape);
             let dropped = entry <= 1 && rng.chance(1, 5);
-            SCall { body: Body::Prog { cmds, entry, dropped }, options, n_attr, extra, refuse }
+            SCall { body: Body::Prog { cmds, entry, dropped }, options, n_attr, extra, refuse, times, too_many, panic_at }
         }
     }
 
@@ -950,7 +974,7 @@ impl SCall {
         };
         match &self.body {
             Body::Plain { inp, entry } => {
-                args.t("F").u(self.refuse as u64).u(m as u64);
+                args.t("F").u(self.refuse as u64).u(m as u64).u(self.times as u64).u(self.panic_at as u64);
                 put_opts(args);
                 let n_attr = self.n_attr;
                 let path = build_path(inp, n_attr, &self.extra);
@@ -999,7 +1023,7 @@ impl SCall {
                 }
             }
             Body::Prog { cmds, entry, dropped } => {
-                args.t("G").u(self.refuse as u64).u(m as u64);
+                args.t("G").u(self.refuse as u64).u(m as u64).u(self.times as u64).u(self.panic_at as u64);
                 args.t(if *entry == 5 { "rejected" } else if *dropped { "drop" } else { "bld" });
                 put_opts(args);
                 let ops: Vec<Op> = cmds.iter().flat_map(|c| ops_of(c, self.n_attr, &self.extra)).collect();
@@ -1011,7 +1035,7 @@ impl SCall {
 
     /// the call on the real tessellator `tess`
     fn run(&self, tess: &mut StrokeTessellator) -> CallResult {
-        let mut rec = ReuseRec::new(self.refuse);
+        let mut rec = ReuseRec::new(self.refuse, self.times, self.too_many, self.panic_at);
         let options = &self.options;
         let n_attr = self.n_attr;
         let extra = &self.extra;
@@ -1142,6 +1166,8 @@ impl SCall {
                     Some(Ok(())) => "ok",
                     Some(Err(_)) => "err",
                 });
+                // the error is latched at the first refusal: no further vertex is offered to the builder
+                o.t("R").u(rec.refusals as u64);
                 o.t("V").u(rec.verts.len() as u64);
                 for v in &rec.verts {
                     put_vtx(&mut o, v);
@@ -1156,7 +1182,7 @@ impl SCall {
                 }
             }
         }
-        CallResult { toks: o.0.clone(), panicked, tris_at_refusal: rec.tris_at_refusal }
+        CallResult { toks: o.0.clone(), panicked, tris_at_refusal: rec.tris_at_refusal, refusals: rec.refusals }
     }
 }
 
@@ -1176,13 +1202,15 @@ pub fn stroke_reuse_case(ctx: &mut Ctx) {
         let attrs: Vec<String> = calls.iter().map(|c| c.n_attr.to_string()).collect();
         let refused = fresh.iter().filter(|f| f.tris_at_refusal.is_some()).count();
         let tag = format!(
-            "stroke_reuse n={} {} attrs={} refused={} variable={} panics={}",
+            "stroke_reuse n={} {} attrs={} refused={} variable={} panics={} ctorpanics={} multirefuse={}",
             n,
             names.join("+"),
             attrs.join(">"),
             refused,
             calls.iter().filter(|c| c.options.variable_line_width.is_some()).count(),
-            fresh.iter().filter(|f| f.panicked).count()
+            fresh.iter().filter(|f| f.panicked).count(),
+            calls.iter().zip(fresh.iter()).filter(|(c, f)| f.panicked && c.panic_at > 0 && !matches!(c.body, Body::Prog { entry: 5, .. })).count(),
+            calls.iter().zip(fresh.iter()).filter(|(c, f)| f.tris_at_refusal.is_some() && c.times != 1).count()
         );
         (args, tag, move || {
             let mut tess = StrokeTessellator::new();
